@@ -11,11 +11,13 @@ Import ListNotations.
    after the fields, post on the object the pre hook returned, context as specified). *)
 Definition C19_trace_full : Prop := trace_full.
 
-(* ... holds for schemas without unions, mixin and codec path alike, any depth *)
+(* ... holds for schemas without unions, mixin and codec path alike, any depth.  [wt E a v t]: v is a value of type
+   t; a = true (mixin path) also admits an instance of a subclass where the parent class is declared (fields typed
+   with a base class, discriminated hierarchies), provided both classes agree on the context option. *)
 Theorem C19_trace_partial :
-  forall E stubs m v t pc k,
-    env_union_free E = true -> union_free t = true -> wt E v t = true -> (m = Codec -> k = CNone) ->
-    pack E stubs m v t pc k = (true, trav E pc k v).
+  forall E stubs m v t pc px k,
+    env_union_free E = true -> union_free t = true -> wt E (is_mixin m) v t = true -> (m = Codec -> k = CNone) ->
+    pack E stubs m v t pc px k = (true, trav E pc k v).
 Proof. exact trace_partial. Qed.
 Print Assumptions C19_trace_partial.
 
@@ -27,18 +29,18 @@ Print Assumptions C19_trace_refuted.
 (* D8 (known finding C19/codec-union-static-dispatch): through a codec, the second member of a
    union of dataclasses has its __pre_serialize__ run twice *)
 Theorem C19_codec_union_refuted :
-  exists E v t, wt E v t = true /\
+  exists E v t, wt E false v t = true /\
     count_occ (list_eq_dec Nat.eq_dec) (map (fun e => match e with Pre c i _ => [c; i] | _ => [] end)
-                                            (snd (pack E true Codec v t false CNone))) [1; 7] = 2.
+                                            (snd (pack E true Codec v t false xf_none CNone))) [1; 7] = 2.
 Proof. exact codec_union_refuted. Qed.
 Print Assumptions C19_codec_union_refuted.
 
 (* mixin path, unions of dataclasses allowed everywhere: serialization succeeds and, contexts
    aside, every hook runs exactly once and in traversal order *)
 Theorem C19_mixin_once :
-  forall E stubs v t pc k, wt E v t = true ->
-    fst (pack E stubs Mixin v t pc k) = true /\
-    map erase (snd (pack E stubs Mixin v t pc k)) = map erase (trav E pc k v).
+  forall E stubs v t pc px k, wt E true v t = true ->
+    fst (pack E stubs Mixin v t pc px k) = true /\
+    map erase (snd (pack E stubs Mixin v t pc px k)) = map erase (trav E pc k v).
 Proof. exact mixin_once. Qed.
 Print Assumptions C19_mixin_once.
 
@@ -46,10 +48,10 @@ Print Assumptions C19_mixin_once.
    caller's token (union-free schemas) *)
 Definition C19_context_full : Prop := context_full.
 Theorem C19_context :
-  forall E stubs v t k c i j,
-    env_union_free E = true -> union_free t = true -> wt E v t = true -> onpath E true v c i j ->
-    (c_pre (cls E c) = true -> In (Pre c i k) (snd (pack E stubs Mixin v t true k))) /\
-    (c_post (cls E c) = true -> In (Post c j k) (snd (pack E stubs Mixin v t true k))).
+  forall E stubs v t px k c i j,
+    env_union_free E = true -> union_free t = true -> wt E true v t = true -> onpath E true v c i j ->
+    (c_pre (cls E c) = true -> In (Pre c i k) (snd (pack E stubs Mixin v t true px k))) /\
+    (c_post (cls E c) = true -> In (Post c j k) (snd (pack E stubs Mixin v t true px k))).
 Proof. exact context_partial. Qed.
 Print Assumptions C19_context.
 
@@ -77,19 +79,61 @@ Theorem C19_de_post_once :
 Proof. exact de_post_once. Qed.
 Print Assumptions C19_de_post_once.
 
+(* codec path with an instance of a subclass at a parent-typed position (known finding
+   C19/codec-subclass-static-dispatch): the parent's function is called statically, hooks the subclass adds never run *)
+Definition C19_trace_subclass_full : Prop := trace_subclass_full.
+Theorem C19_codec_subclass_refuted : ~ C19_trace_subclass_full.
+Proof. exact codec_subclass_refuted. Qed.
+Print Assumptions C19_codec_subclass_refuted.
+
+(* mixin path (known finding C19/subclass-declared-class-flags): a field declared with a class that did not opt in
+   holds an instance of a subclass that did - the context does not reach it *)
+Definition C19_context_subclass_full : Prop := context_subclass_full.
+Theorem C19_subclass_context_refuted : ~ C19_context_subclass_full.
+Proof. exact subclass_context_refuted. Qed.
+Print Assumptions C19_subclass_context_refuted.
+
+(* Discriminators.  A class whose own Config has Discriminator(field, include_subtypes) is only a dispatcher:
+   decoding a tagged dict through the base IS decoding it with the from_dict of the registered variant - same
+   result, identities and events.  So the hooks that run are the variant's (declared or inherited), once, in the
+   order given by C19_de_trace_partial / C19_de_post_once; the base's hooks are not run again around the dispatch. *)
+Theorem C19_disc_config_dispatch :
+  forall E c t v kvs n,
+    c_disc (cls E c) = Some true -> lookup_tag E (subclasses E c) t = Some v -> c_disc (cls E v) = None ->
+    unpack E (WDict (Some t) kvs) (TDc c) n = unpack E (WDict (Some t) kvs) (TDc v) n.
+Proof. exact disc_config_dispatch. Qed.
+Print Assumptions C19_disc_config_dispatch.
+
+(* the same for Annotated[P, Discriminator(field, include_subtypes[, include_supertypes])] on a field *)
+Theorem C19_disc_annotated_dispatch :
+  forall E p sup t v kvs n,
+    lookup_tag E (disc_variants E p sup) t = Some v -> c_disc (cls E v) = None ->
+    unpack E (WDict (Some t) kvs) (TDisc p true sup) n = unpack E (WDict (Some t) kvs) (TDc v) n.
+Proof. exact disc_annotated_dispatch. Qed.
+Print Assumptions C19_disc_annotated_dispatch.
+
+(* missing or unknown tag: the call fails and no hook has run *)
+Theorem C19_disc_no_variant :
+  forall E c kvs n,
+    c_disc (cls E c) = Some true ->
+    unpack E (WDict None kvs) (TDc c) n = (None, [], n) /\
+    (forall t, lookup_tag E (subclasses E c) t = None -> unpack E (WDict (Some t) kvs) (TDc c) n = (None, [], n)).
+Proof. exact disc_no_variant. Qed.
+Print Assumptions C19_disc_no_variant.
+
 (* ---- non-vacuity: a nested schema with a list, an Optional, hooks on every class, a pre hook
    that returns another object (6 -> 9), mixed context options *)
 Definition E_ex : env :=
-  [ Build_cinfo [Build_field 0 TInt false] true true true true true;
-    Build_cinfo [Build_field 1 (TList (TDc 0)) false; Build_field 2 (TOpt (TDc 0)) true] true true true true true ].
+  [ mk_cinfo [Build_field 0 TInt false] true true true true true;
+    mk_cinfo [Build_field 1 (TList (TDc 0)) false; Build_field 2 (TOpt (TDc 0)) true] true true true true true ].
 Definition v_ex : val :=
   VInst 1 6 9 [(1, VList [VInst 0 2 2 [(0, VInt)]; VInst 0 3 3 [(0, VInt)]]); (2, VInst 0 4 4 [(0, VInt)])].
 Example C19_nonvacuous :
-  env_union_free E_ex = true /\ wt E_ex v_ex (TDc 1) = true /\ onpath E_ex true v_ex 0 3 3 /\
-  pack E_ex true Mixin v_ex (TDc 1) true CTok
+  env_union_free E_ex = true /\ wt E_ex true v_ex (TDc 1) = true /\ onpath E_ex true v_ex 0 3 3 /\
+  pack E_ex true Mixin v_ex (TDc 1) true xf_none CTok
   = (true, [Pre 1 6 CTok; Pre 0 2 CTok; Post 0 2 CTok; Pre 0 3 CTok; Post 0 3 CTok;
             Pre 0 4 CTok; Post 0 4 CTok; Post 1 9 CTok]) /\
-  unpack E_ex (WDict [(1, WList [WDict [(0, WInt)]]); (2, WNone)]) (TDc 1) 0
+  unpack E_ex (WDict None [(1, WList [WDict None [(0, WInt)]]); (2, WNone)]) (TDc 1) 0
   = (Some (VInst 1 1 1 [(1, VList [VInst 0 0 0 [(0, VInt)]]); (2, VNone)]),
      [PreDe 1; PreDe 0; PostDe 0 0; PostDe 1 1], 2).
 Proof.
@@ -102,11 +146,11 @@ Qed.
 (* a look-alike union: the first member is tried, decodes an inner instance (identity 0, post hook runs),
    then fails; the result comes from the second member; the theorem's filter keeps exactly its events *)
 Definition E_ex2 : env :=
-  [ Build_cinfo [Build_field 0 TInt false] false false true true false;
-    Build_cinfo [Build_field 1 (TDc 0) false; Build_field 2 TInt false] false false true true false;
-    Build_cinfo [Build_field 1 (TDc 0) false; Build_field 3 TInt false] false false true true false ].
+  [ mk_cinfo [Build_field 0 TInt false] false false true true false;
+    mk_cinfo [Build_field 1 (TDc 0) false; Build_field 2 TInt false] false false true true false;
+    mk_cinfo [Build_field 1 (TDc 0) false; Build_field 3 TInt false] false false true true false ].
 Example C19_de_nonvacuous :
-  unpack E_ex2 (WDict [(1, WDict [(0, WInt)]); (3, WInt)]) (TUnion [1; 2]) 0
+  unpack E_ex2 (WDict None [(1, WDict None [(0, WInt)]); (3, WInt)]) (TUnion [1; 2]) 0
   = (Some (VInst 2 2 2 [(1, VInst 0 1 1 [(0, VInt)]); (3, VInt)]),
      [PreDe 1; PreDe 0; PostDe 0 0; PreDe 2; PreDe 0; PostDe 0 1; PostDe 2 2], 3)
   /\ post_events_of E_ex2 (VInst 2 2 2 [(1, VInst 0 1 1 [(0, VInt)]); (3, VInt)])
@@ -118,13 +162,13 @@ Proof. split; vm_compute; reflexivity. Qed.
    C19_context applies to the Leaf: its hooks receive the caller's token although the class in between
    declares no hook of its own (onpath does not ask for hooks on the way) *)
 Definition E_ex3 : env :=
-  [ Build_cinfo [Build_field 0 TInt false] true true false false true;
-    Build_cinfo [Build_field 1 (TOpt (TDc 0)) true] false false false false true;
-    Build_cinfo [Build_field 2 (TList (TDc 1)) false] true true false false true ].
+  [ mk_cinfo [Build_field 0 TInt false] true true false false true;
+    mk_cinfo [Build_field 1 (TOpt (TDc 0)) true] false false false false true;
+    mk_cinfo [Build_field 2 (TList (TDc 1)) false] true true false false true ].
 Definition v_ex3 : val := VInst 2 1 1 [(2, VList [VInst 1 2 2 [(1, VInst 0 3 3 [(0, VInt)])]])].
 Example C19_context_transit_nonvacuous :
-  env_union_free E_ex3 = true /\ wt E_ex3 v_ex3 (TDc 2) = true /\ onpath E_ex3 true v_ex3 0 3 3 /\
-  pack E_ex3 true Mixin v_ex3 (TDc 2) true CTok = (true, [Pre 2 1 CTok; Pre 0 3 CTok; Post 0 3 CTok; Post 2 1 CTok]).
+  env_union_free E_ex3 = true /\ wt E_ex3 true v_ex3 (TDc 2) = true /\ onpath E_ex3 true v_ex3 0 3 3 /\
+  pack E_ex3 true Mixin v_ex3 (TDc 2) true xf_none CTok = (true, [Pre 2 1 CTok; Pre 0 3 CTok; Post 0 3 CTok; Post 2 1 CTok]).
 Proof.
   repeat split; try (vm_compute; reflexivity).
   eapply onpath_field with (n := 2); [reflexivity|left; reflexivity|].
@@ -137,12 +181,12 @@ Qed.
    model has one type for it): Node(nxt: Optional[Node], kids: List[Node]), opted in, with hooks.  C19_trace_partial
    and C19_context cover it without any depth bound; the token reaches the innermost node. *)
 Definition E_ex4 : env :=
-  [ Build_cinfo [Build_field 0 (TOpt (TDc 0)) true; Build_field 1 (TList (TDc 0)) false] true true false false true ].
+  [ mk_cinfo [Build_field 0 (TOpt (TDc 0)) true; Build_field 1 (TList (TDc 0)) false] true true false false true ].
 Definition v_ex4 : val :=
   VInst 0 1 1 [(0, VInst 0 2 2 [(0, VNone); (1, VList [VInst 0 3 3 [(0, VNone); (1, VList [])]])]); (1, VList [])].
 Example C19_context_recursive_nonvacuous :
-  env_union_free E_ex4 = true /\ wt E_ex4 v_ex4 (TDc 0) = true /\ onpath E_ex4 true v_ex4 0 3 3 /\
-  pack E_ex4 true Mixin v_ex4 (TDc 0) true CTok
+  env_union_free E_ex4 = true /\ wt E_ex4 true v_ex4 (TDc 0) = true /\ onpath E_ex4 true v_ex4 0 3 3 /\
+  pack E_ex4 true Mixin v_ex4 (TDc 0) true xf_none CTok
   = (true, [Pre 0 1 CTok; Pre 0 2 CTok; Pre 0 3 CTok; Post 0 3 CTok; Post 0 2 CTok; Post 0 1 CTok]).
 Proof.
   repeat split; try (vm_compute; reflexivity).
@@ -151,3 +195,44 @@ Proof.
   eapply onpath_list with (x := VInst 0 3 3 [(0, VNone); (1, VList [])]); [left; reflexivity|].
   apply onpath_here. reflexivity.
 Qed.
+
+(* discriminators: Base (0: pre/post_deserialize, Config discriminator with field) <- S1 (1, tag 1) <- S11 (2, tag 2),
+   Base <- S2 (3, tag 3, a required extra field); holder 4 with  a: Base,  b: List[Annotated[Base, Discriminator(
+   include_subtypes=True)]] (no field: every subclass is tried in order S1, S11, S2). *)
+Definition E_ex5 : env :=
+  [ mk_cinfo_h [Build_field 0 TInt false] false false true true false None None (Some true);
+    mk_cinfo_h [Build_field 0 TInt false] false false true true false (Some 0) (Some 1) None;
+    mk_cinfo_h [Build_field 0 TInt false; Build_field 1 TInt false] false false true true false (Some 1) (Some 2) None;
+    mk_cinfo_h [Build_field 0 TInt false; Build_field 2 TInt false] false false true true false (Some 0) (Some 3) None;
+    mk_cinfo [Build_field 3 (TDc 0) false; Build_field 4 (TList (TDisc 0 false false)) false] false false false false false ].
+Example C19_disc_nonvacuous :
+  subclasses E_ex5 0 = [1; 2; 3] /\ lookup_tag E_ex5 (subclasses E_ex5 0) 3 = Some 3 /\
+  (* through the base: only the variant S2's hooks, once *)
+  unpack E_ex5 (WDict (Some 3) [(0, WInt); (2, WInt)]) (TDc 0) 0
+  = (Some (VInst 3 0 0 [(0, VInt); (2, VInt)]), [PreDe 3; PostDe 3 0], 1) /\
+  (* holder: a = tagged S11; b = one untagged item {f0, f2}: S1 accepts it first (f2 is an extra key) *)
+  unpack E_ex5 (WDict None [(3, WDict (Some 2) [(0, WInt); (1, WInt)]); (4, WList [WDict None [(0, WInt); (2, WInt)]])]) (TDc 4) 0
+  = (Some (VInst 4 2 2 [(3, VInst 2 0 0 [(0, VInt); (1, VInt)]); (4, VList [VInst 1 1 1 [(0, VInt)]])]),
+     [PreDe 2; PostDe 2 0; PreDe 1; PostDe 1 1], 3) /\
+  (* an item without f0 fails in all three variants,
+     each attempt having run its pre hook *)
+  unpack E_ex5 (WList [WDict None [(2, WInt)]]) (TList (TDisc 0 false false)) 0
+  = (None, [PreDe 1; PreDe 2; PreDe 3], 0) /\
+  (* serialization of the holder through the mixin: subclass instances under a base-typed field are well typed and
+     C19_trace_partial applies *)
+  wt E_ex5 true (VInst 4 9 9 [(3, VInst 2 7 7 [(0, VInt); (1, VInt)]); (4, VList [VInst 3 8 8 [(0, VInt); (2, VInt)]])]) (TDc 4) = true.
+Proof. repeat split; vm_compute; reflexivity. Qed.
+
+(* other keyword-adding options in a mixin union: holder 2 (context + dialect) with u: Union[A, B]; A = 0 (dialect, no
+   context), B = 1 (context, no dialect).  For an instance of B the first call expression
+   value.__mashumaro_to_dict__(dialect=dialect) raises TypeError, the second one passes the context: B's hooks get the
+   token (with equal dialect options the first expression would have succeeded and lost it, cf. C19_union_context_refuted) *)
+Definition E_ex6 : env :=
+  [ Build_cinfo [Build_field 0 TInt false] true true false false false None None None (false, false, true);
+    Build_cinfo [Build_field 1 TInt false] true true false false true None None None (false, false, false);
+    Build_cinfo [Build_field 2 (TUnion [0; 1]) false] true true false false true None None None (false, false, true) ].
+Example C19_union_flags_nonvacuous :
+  wt E_ex6 true (VInst 2 1 1 [(2, VInst 1 2 2 [(1, VInt)])]) (TDc 2) = true /\
+  pack E_ex6 true Mixin (VInst 2 1 1 [(2, VInst 1 2 2 [(1, VInt)])]) (TDc 2) true (false, false, true) CTok
+  = (true, [Pre 2 1 CTok; Pre 1 2 CTok; Post 1 2 CTok; Post 2 1 CTok]).
+Proof. split; vm_compute; reflexivity. Qed.
